@@ -206,7 +206,8 @@ def build(profile="functional"):
     rm.ret("ret")
     rm.props_safety = ["C13"]
     rm.props_all = ["C04", "C02"] if fun else ["C13"]
-    rm.closure("|member|", params="|member: &MemberMapping<'s>|", ret="b: bool", spec="ensures b == (member.original@ == first.original@)")
+    rm.closure("|member|", params="|member: &MemberMapping<'s>|", ret="b: bool",
+               spec="ensures b == (member.original@ == first.original@)" if fun else "")
     rm.body_start(HASH)
     if fun:
         rm.contract("""    ensures
